@@ -9,15 +9,15 @@ RULE = ('two glob colonies holding compartments from a kit (counting process; op
         'daughters or inheriting ones, with explicit initial states), _move between colonies; duplicate _add as the '
         'malformed stream. Observed after every update: the whole hierarchy with, for every node and process object, '
         'where it was before the update (identity), plus the engine bookkeeping; with some probability one directive '
-        'object is addressed to both colonies in turn. Nested stream (oracle only): two zones of groups of cells, every '
+        'object is addressed to both colonies in turn. Nested stream: two zones of groups of cells, every '
         'cell with a process, 1-6 _move updates whose source is a group or a cell named by a nested path; after each, '
-        'hierarchy, node/process identities and process table against a reference on plain dicts. '
+        'hierarchy, node/process identities and process table against Model/Struct.v (OpMoveP) and against a reference '
+        'on plain dicts. '
         'Non-trivial: >=3 updates applied / a nested source.')
 ASSUMPTIONS = [
     'generated subtrees come from a fixed kit of process classes (Model/StructC.v); the theorems are generic in the kit',
     'structural updates are addressed to the colony nodes; _move targets the other colony through the holder process port',
     'random.choice inside divide_split is replayed from the seed handed to random.seed before the update',
-    'a _move whose source is a nested path is outside Model/Struct.v: decided by the reference oracle of the nested stream only',
 ]
 IMPORTS, CHECK_FN, BAD_TERM = struct.IMPORTS, struct.CHECK_FN, struct.BAD_TERM
 render, run_impl, stat_key, nontrivial, model_output = struct.render, struct.run_impl, struct.stat_key, struct.nontrivial, struct.model_output
@@ -31,10 +31,13 @@ def generate(seed, tier, enlarged=False):
     cases = [
         # corpus: tuple-path _delete (known finding K4)
         {'kind': 'hist', 'hist': [['A', [['generate', 'c01', 0, {}]]], ['A', [['delete_path', ['c01']]]]]},
+        # corpus: one update that generates a compartment and deletes it again (known finding K7)
+        {'kind': 'hist', 'hist': [['A', [['generate', 'c01', 0, {}]]],
+                                  ['A', [['generate', 'c02', 1, {}], ['delete', 'c02']]]]},
     ]
     for i in range(n):
         cases.append({'kind': 'hist', 'hist': struct.gen_history(rng, rng.randint(3, 10 if tier == 'quick' else 25))})
-    # _move whose source is named by a nested path (oracle only: the model has sources of length 1)
+    # _move whose source is named by a nested path (Model/Struct.v OpMoveP, from a hierarchy the harness supplies)
     from harness import nestmove
     for i in range(n // 3):
         cases.append(nestmove.gen_case(rng))
@@ -147,7 +150,7 @@ def run(cases, tier='quick', seed=0):
         IMPORTS, CHECK_FN, BAD_TERM = struct.IMPORTS, struct.CHECK_FN, struct.BAD_TERM
         run_impl, oracle = staticmethod(nestmove.run_impl), staticmethod(nestmove.oracle)
         nontrivial, stat_key = staticmethod(nestmove.nontrivial), staticmethod(nestmove.stat_key)
-        render = staticmethod(lambda c, ob: None)
+        render = staticmethod(nestmove.render)
     me = __import__('harness.c09', fromlist=['x'])
     return common.merge_streams(cases, [
         (lambda c: c['kind'] == 'hist', lambda cs: common.generic_run(me, cs, seed, shard=40)),
